@@ -17,7 +17,7 @@ suite = re.search(r"^\d+ failed, \d+ passed.*$", log, re.M)
 rcs = re.findall(r"^rc=(\d+)", log, re.M)
 files = sorted(set(re.findall(r"^diff --git a/(\S+)", open(os.path.join(dst, "patch.diff")).read(), re.M)))
 meta = {
-    "property": prop, "id": sid, "round": 2,
+    "property": prop, "id": sid, "round": int(os.environ.get("SEED_ROUND", "2")),
     "origin": "written by an independent sub-agent given only the property text and a scratch worktree of /repo HEAD (round 2: two changes per property requested)",
     "summary": "see notes.md (the sub-agent's own description)",
     "needs_to_manifest": needs, "files": files,
